@@ -64,6 +64,14 @@ def pipe(ctx):
     def stage(kind, op, inner):
         return {'WhereEqual': '%s(%s)', 'OrderBy': '%s(%s)', 'dict': 'WhereEqual(%s)(%s)', 'callable': 'filter(%s, %s)'}[kind] % (op, inner)
     kinds = ['WhereEqual', 'OrderBy', 'dict', 'callable']
+    _run = it.run
+
+    def run0(state):
+        o, t = _run(state)
+        if o.kind == 'return' and o.value is not None:
+            o = absint.Outcome('return', o.node, absint.strip0(o.value))
+        return o, t
+    it.run = run0
     out, tr = it.run({'n': 0, 'kinds': {}})
     r.check(out.kind == 'return' and out.value is not None and src(out.value) == it_p, 'no operator: the source is returned', fn,
             construct=M + 'apply_query_operators', key='return', msg='apply_query_operators without operators ends with %r' % out)
@@ -248,7 +256,7 @@ def nav(ctx):
         return [absint.Sym(ast.Name(id='I1', ctx=ast.Load())), absint.Sym(ast.Name(id='I2', ctx=ast.Load()))]
 
     def nav_elems(e, s, tr):
-        tr.append(('nav', src(e['_M']), src(e['_I']), src(e['_K']), src(e['_R']), src(e['_P'])))
+        tr.append(('nav', src(e['_M']), src(e['_I']), src(e['_K']), src(absint.strip0(e['_R'])), src(e['_P'])))
         return [absint.Sym(ast.Name(id='RES_' + src(e['_I']), ctx=ast.Load()))]
     # nothing may be filtered out of a step: a conditional inside the instance / result loops is a deviation in itself
     for lp_ in [n for n in ast.walk(nv) if isinstance(n, ast.For)]:
